@@ -186,7 +186,7 @@ func variants276(net, ver int, data []byte, addr string, yield func(Str)) {
 
 func TestBIP276Family(t *testing.T) {
 	pbt.Run(t, pbt.Sub[Str]{
-		Name: "bip276", Quick: 60000, Thorough: 1500000,
+		Name: "bip276", Quick: 60000, Thorough: 1000000,
 		Gen: func(t *rapid.T) Str {
 			h := genHash(t)
 			addr := baseAddr(h, rapid.Bool().Draw(t, "mainnet"))
